@@ -144,9 +144,25 @@ struct World {
     revoked: BTreeSet<String>,
     verified_revoked: bool,
     sibling: bool,
+    /// creation order of the (random) key ids: all random choices among keys go by this order,
+    /// so that the same seed gives the same history shape whatever ids the keys get
+    order: BTreeMap<String, usize>,
 }
 
 impl World {
+    fn note(&mut self, mut news: Vec<(u8, String)>) {
+        news.sort();
+        for (_, k) in news {
+            let n = self.order.len();
+            self.order.entry(k).or_insert(n);
+        }
+    }
+    /// live-object keys of replica r in creation order
+    fn kids_ordered(&self, r: usize) -> Vec<HookKey> {
+        let mut v = self.kids_of(r);
+        v.sort_by_key(|k| self.order.get(&k.id).copied().unwrap_or(usize::MAX));
+        v
+    }
     fn push(&mut self, op: Op, out: Out, r: usize) {
         let all = dump_all(&self.reps[r]);
         let ent = dump_ent(&self.reps[r]);
@@ -165,14 +181,19 @@ impl World {
         let before: BTreeSet<String> = self.kids_of(r).into_iter().map(|k| k.id).collect();
         self.reps[r].h.assert(u, ms(t), &mkcid(c)).expect("assert");
         let kid = self.kids_of(r).into_iter().map(|k| k.id).find(|k| !before.contains(k));
+        if let Some(k) = &kid {
+            self.note(vec![(u, k.clone())]);
+        }
         self.push(Op::Assert { r, u, t, c, kid }, Out::Unit, r);
     }
     fn rotate(&mut self, rng: &mut Rng, r: usize, t: u64) {
         let c = self.next_cid(rng, r);
         let before: BTreeSet<String> = self.kids_of(r).into_iter().map(|k| k.id).collect();
         self.reps[r].h.rotate(ms(t), &mkcid(c)).expect("rotate");
-        let news: Vec<(u8, String)> =
+        let mut news: Vec<(u8, String)> =
             self.kids_of(r).into_iter().filter(|k| !before.contains(&k.id)).map(|k| (k.usage, k.id)).collect();
+        news.sort();
+        self.note(news.clone());
         self.push(Op::Rotate { r, t, c, news }, Out::Unit, r);
     }
     fn revoke(&mut self, rng: &mut Rng, r: usize, kids: Vec<String>) -> bool {
@@ -288,6 +309,7 @@ fn history(rng: &mut Rng, hid: u64, rs: bool, len: u64) -> World {
         revoked: BTreeSet::new(),
         verified_revoked: false,
         sibling: false,
+        order: BTreeMap::new(),
     };
     // creation as the plugin does it: assert every usage at ZERO, store, reload; then the other
     // replicas receive the entry
@@ -308,7 +330,7 @@ fn history(rng: &mut Rng, hid: u64, rs: bool, len: u64) -> World {
             w.rotate(rng, r, t);
             mutated = true;
         } else if roll < 38 {
-            let cur = w.kids_of(r);
+            let cur = w.kids_ordered(r);
             let mut kids = vec![];
             for _ in 0..rng.range(1, 2) {
                 if rng.chance(1, 10) {
@@ -364,7 +386,8 @@ fn history(rng: &mut Rng, hid: u64, rs: bool, len: u64) -> World {
                 w.repl(src, r, rng.chance(1, 2), t);
             }
         } else {
-            let cand: Vec<String> = dump_ent(&w.reps[r]).into_iter().filter(|k| k.status == 0 && [1u8, 3, 4].contains(&k.usage)).map(|k| k.id).collect();
+            let mut cand: Vec<String> = dump_ent(&w.reps[r]).into_iter().filter(|k| k.status == 0 && [1u8, 3, 4].contains(&k.usage)).map(|k| k.id).collect();
+            cand.sort_by_key(|k| w.order.get(k).copied().unwrap_or(usize::MAX));
             if !cand.is_empty() {
                 let k = rng.pick(&cand).clone();
                 w.retain(r, &k);
@@ -498,6 +521,7 @@ fn probe(args: &Args) {
         revoked: BTreeSet::new(),
         verified_revoked: false,
         sibling: false,
+        order: BTreeMap::new(),
     };
     w.assert(&mut rng, 0, 0, 0);
     w.commit(0);
@@ -534,7 +558,7 @@ fn main() {
     }
     let mut rng = Rng::new(args.seed);
     let mut sink = Sink::new(&args, "KV.C34.Model", 12);
-    sink.rule = "random histories (12..40 random ops after creation, then every produced token is verified on every replica) of assert/rotate/revoke/sign/verify/commit/abort/replicate/retain on 1..3 replicas of one real key object with a random subset of the usages es256/hs256/rs256/jwe-a128gcm/hkdf; times in 0..6.9 s so that equal valid_from seconds are frequent; change ids mostly increasing, sometimes reused; trim ids none/random/everything. non-trivial = some token is verified after the key that signed it was revoked somewhere".into();
+    sink.rule = "(same seed = same history shape; the key ids themselves are random in kanidm and are renumbered in the order of their strings) random histories (12..40 random ops after creation, then every produced token is verified on every replica) of assert/rotate/revoke/sign/verify/commit/abort/replicate/retain on 1..3 replicas of one real key object with a random subset of the usages es256/hs256/rs256/jwe-a128gcm/hkdf; times in 0..6.9 s so that equal valid_from seconds are frequent; change ids mostly increasing, sometimes reused; trim ids none/random/everything. non-trivial = some token is verified after the key that signed it was revoked somewhere".into();
     let n = if args.thorough { 2400 } else { 200 };
     for hid in 0..n {
         let rs = rng.chance(1, 16);
